@@ -328,6 +328,21 @@ func ExceptionGivenMatches(err, exc Object) bool {
 	return err == exc
 }
 
+// RecoverToError converts the value recovered from a panic into the
+// error to return to the caller - a python exception.
+//
+// Python exceptions are passed on unchanged; anything else (eg a go
+// runtime error from a bug in a builtin) becomes a SystemError.
+func RecoverToError(r interface{}) error {
+	switch x := r.(type) {
+	case ExceptionInfo:
+		return x
+	case *Exception:
+		return x
+	}
+	return MakeException(r)
+}
+
 // StopIterationValue returns the value carried by a StopIteration
 // raised as err (the return value of a generator), or None.
 func StopIterationValue(err error) Object {
